@@ -264,6 +264,11 @@ func receiverArch(p *procRec) distsys.MPCalArchetype {
 			Body: func(iface distsys.ArchetypeInterface) error {
 				var err error
 				_ = err
+				if !p.finished && p.committed > 6*p.expected+200 {
+					// far more than was ever sent: the history already shows it; stop instead of reading for ever
+					ev.emit(Ev{K: "overrun", P: p.name, N: p.committed})
+					p.finished = true
+				}
 				if p.finished {
 					return iface.Goto("AReceiver.Done")
 				}
@@ -413,6 +418,38 @@ func truncate(s string, n int) string {
 		return s[:n]
 	}
 	return s
+}
+
+// kernelQuiet reports whether no TCP socket with a local or remote port in ports (other than listeners) has
+// bytes in its send or receive queue (/proc/net/tcp). False if the table cannot be read.
+func kernelQuiet(ports map[int]bool) bool {
+	buf, err := os.ReadFile("/proc/net/tcp")
+	if err != nil {
+		return false
+	}
+	for i, line := range strings.Split(string(buf), "\n") {
+		f := strings.Fields(line)
+		if i == 0 || len(f) < 5 {
+			continue
+		}
+		if f[3] == "0A" { // LISTEN
+			continue
+		}
+		var lp, rp int
+		if j := strings.IndexByte(f[1], ':'); j >= 0 {
+			fmt.Sscanf(f[1][j+1:], "%X", &lp)
+		}
+		if j := strings.IndexByte(f[2], ':'); j >= 0 {
+			fmt.Sscanf(f[2][j+1:], "%X", &rp)
+		}
+		if !ports[lp] && !ports[rp] {
+			continue
+		}
+		if f[4] != "00000000:00000000" {
+			return false
+		}
+	}
+	return true
 }
 
 func freePort() int {
@@ -644,11 +681,32 @@ func childMain(args []string) {
 	pxIdle := true
 	for _, px := range proxies {
 		ok := false
-		for try := 0; try < 3000 && !ok; try++ {
+		for try := 0; try < 20000 && !ok; try++ {
 			if px.idle() && atomic.LoadInt32(&px.active) == 0 {
 				ok = true
 			} else {
 				time.Sleep(time.Millisecond)
+			}
+		}
+		pxIdle = pxIdle && ok
+	}
+	// ... and the kernel holds no byte for any connection of the case any more (closed sockets deliver their
+	// send queues in the background; with a zero window that can take seconds): every handler has read its
+	// stream to the end. The receivers keep reading while we wait.
+	if c.mailboxKind() {
+		watch := map[int]bool{}
+		for _, p := range ports {
+			watch[p] = true
+		}
+		for _, px := range proxies {
+			watch[px.ln.Addr().(*net.TCPAddr).Port] = true
+		}
+		ok := false
+		for try := 0; try < 20000 && !ok; try++ {
+			if kernelQuiet(watch) {
+				ok = true
+			} else {
+				time.Sleep(2 * time.Millisecond)
 			}
 		}
 		pxIdle = pxIdle && ok
